@@ -20,6 +20,10 @@ SimNext ==
     \/ (Len(hist) > 6 /\ Destroy)
 SimSpec == Init /\ [][SimNext]_vars
 
+\* session histories (IqTrackerGenSess.cfg): every sequence of session openings / closings with one
+\* request sent at any position; no replies, no destruction
+SessBound == Bound /\ \A k \in 1..Len(hist) : hist[k].a \in {"Open", "Close", "Send"}
+
 \* all-paths set for the id rule (IqTrackerGenIds.cfg): one session, sends and replies only
 IdsBound == /\ Bound
             /\ \A k \in 1..Len(hist) : hist[k].a \in {"Open", "Send", "Recv"}
